@@ -1,11 +1,18 @@
 #!/bin/bash
-# usage: try_mutant.sh <patch.diff> <PROP> [<PROP>...]
-# applies the patch to /repo, runs the quick checks, reverts. Prints one line per check.
-patch="$1"; shift; [ -f "${patch%.patch.diff}.ported.diff" ] && patch="${patch%.patch.diff}.ported.diff"
+# usage: try_mutant.sh <seeded/<id> dir | patch file> <PROP> [<PROP>...]
+# applies the change to /repo, runs the quick checks, reverts. Prints one block per check.
+src="$1"; shift
+if [ -d "$src" ]; then
+  patch="$src/patch.diff"; [ -f "$src/patch.ported.diff" ] && patch="$src/patch.ported.diff"
+else
+  patch="$src"; [ -f "${patch%.patch.diff}.ported.diff" ] && patch="${patch%.patch.diff}.ported.diff"
+fi
+patch=$(readlink -f "$patch")
 cd /repo || exit 2
 if [ -n "$(git status --porcelain --untracked-files=no)" ]; then echo "REPO DIRTY - refusing"; exit 2; fi
 if ! git apply --3way "$patch" 2>/tmp/apply.err; then
-  if ! patch -p1 --no-backup-if-mismatch -F3 < "$patch" >/tmp/apply.err 2>&1; then echo "APPLY-FAILED $patch"; cat /tmp/apply.err; git checkout -- . ; exit 2; fi
+  git checkout -q HEAD -- . 
+  if ! patch -p1 --no-backup-if-mismatch -F3 < "$patch" >/tmp/apply.err 2>&1; then echo "APPLY-FAILED $patch"; cat /tmp/apply.err; git checkout -q HEAD -- . ; find src -name '*.rej' -delete; exit 2; fi
 fi
 git reset -q
 for p in "$@"; do
@@ -13,5 +20,5 @@ for p in "$@"; do
   echo "== $(basename $(dirname $patch))/$(basename $patch) vs $p: exit=$rc"
   echo "$out" | grep -E "^(VIOLATION|  class|HARNESS|KNOWN)" | head -8
 done
-git checkout -- . 
+git checkout -q HEAD -- .
 git status --porcelain --untracked-files=no | head
